@@ -101,6 +101,8 @@ theorem nuisance_generated {M : Type} (fit : List Nat → M) (S : List (List Nat
   unfold Gen.treatment_nuisance Gen.outcome_nuisance Py.forIn
   exact ⟨by simpa using fold_append_map fit S [], by simpa using fold_append_map fit S []⟩
 
+example : Gen.treatment_nuisance (fun s => s.length) [[0, 1], [2, 3], [4, 5, 6]] = [2, 2, 3] := by decide
+
 /-- **The `n_splits` guards of the four `fit` methods as regenerated** are the model's `minSplits`. -/
 theorem min_splits_generated :
     Gen.min_splits_SingleCrossfitAIPTW = minSplits false ∧ Gen.min_splits_SingleCrossfitTMLE = minSplits false ∧
